@@ -48,6 +48,18 @@ func c15Hooks(in *symgo.Interp) {
 	}
 }
 
+// c15DriveHooks: the numeric text of a set rule is a token for its value variable
+func c15DriveHooks(in *symgo.Interp) {
+	in.MaxUnion = 128 // tables keyed by symbolic ticks: one alternative per way the ticks of the rules coincide
+	in.Hooks[repoMod+"/pkg/bondmachine.ImportNumber"] = func(in *symgo.Interp, fn *ssa.Function, args []symgo.Value) (symgo.Value, bool) {
+		stub := fn.Pkg.Func("zzC15Number")
+		if stub == nil {
+			return nil, false
+		}
+		return in.CallFunction(stub, args, nil), true
+	}
+}
+
 func C15(tier string) int {
 	_ = time.Now
 	h := Harness{File: "c15_simbox.go", Pkg: "pkg/simbox"}
@@ -101,16 +113,42 @@ func C15(tier string) int {
 			cfgs = append(cfgs, Config{Name: fmt.Sprintf("bookkeeping n=%d op=%s", n, []string{"Del", "Suspend", "Reactivate"}[op]), Func: "zzC15Book", Args: []Arg{I(n), I(op)}})
 		}
 	}
+	// part 3: compilation of the set rules into the injection tables (SimDrive.Init)
+	hd := Harness{File: "c15_drive.go", Extra: []string{"lib_bondmachine.go"}, Pkg: "pkg/bondmachine"}
+	pool := []string{"i0", "i1", "p0r0", "p0r1", "o0"}
+	var tuples [][]string
+	for _, a := range pool {
+		tuples = append(tuples, []string{a})
+		for _, b := range pool {
+			tuples = append(tuples, []string{a, b})
+		}
+	}
+	if tier == "thorough" {
+		for _, a := range pool {
+			for _, b := range pool {
+				for _, c := range pool[:4] {
+					tuples = append(tuples, []string{a, b, c})
+				}
+			}
+		}
+	} else {
+		tuples = append(tuples, []string{"i0", "i0", "i0"}, []string{"i0", "p0r1", "i0"}, []string{"p0r0", "i1", "i1"})
+	}
+	for ti, tp := range tuples {
+		rs := []int{8, 16, 32, 64}[ti%4]
+		cfgs = append(cfgs, Config{Name: fmt.Sprintf("SimDrive.Init rules on objects %v Rsize=%d", tp, rs), Func: "zzC15Drive", Harness: &hd,
+			Args: []Arg{S(strings.Join(tp, ",")), I(rs)}, Setup: c15DriveHooks})
+	}
 	sp := &Spec{
-		ID: "C15", Level: "proof", Tier: tier, Harness: h,
-		LoadPkgs: []string{"pkg/simbox"},
-		Opts:     RunOpts{Inits: []string{"pkg/simbox"}, PanicObl: true},
+		ID: "C15", Level: "proof", Tier: tier, Harness: h, Harnesses: []Harness{h, hd},
+		LoadPkgs: []string{"pkg/simbox", "pkg/bondmachine"},
+		Opts:     RunOpts{Inits: []string{"pkg/simbox", "pkg/bmnumbers", "pkg/procbuilder", "pkg/bondmachine"}, PanicObl: true},
 		Configs:  FilterConfigs(cfgs),
 		Assumptions: []string{
 			"rule validity: (Timec, Action) is one of the documented pairs; Object and Extra are ASCII strings without ':' of the enumerated lengths; event rules have Tick 0; 2-word config rules have empty Extra",
 			"tickmode 0: decimal text of a 64-bit tick is an opaque injective token (contract strconv.Atoi(strconv.Itoa(x)) == x); tickmode 1: ticks below 65536 with exact digit arithmetic through the real strconv semantics model",
 			"indices of Del/Suspend/Reactivate are >= 0 (a negative index panics today; the property does not speak about malformed indices)",
-			"part 3 of the design (rule -> action compilation in bondmachine.SimDrive/SimReport.Init) and the tick loop in cmd/bondmachine are not covered by this check",
+			"part 3, SimDrive.Init only: for lists of 1-3 set/other rules on concrete objects (i0, i1, p0r0, p0r1, o0; every pair, selected or all triples) with tick, value, kind (absolute set / periodic set / another kind) and suspended flag as solver variables: for ANY tick and every object the absolute and periodic tables hold exactly the value of the last non-suspended matching rule and nothing otherwise, the injection pointer is the object's location, absolutely-set inputs are marked for valid. bondmachine.ImportNumber is stubbed (the k-th rule's text denotes the k-th value variable; literal import is C08's subject). SimReport.Init (get/show/event tables) and the tick loop in cmd/bondmachine that applies the tables are not covered",
 		},
 		Bounds: map[string]interface{}{"object_extra_lengths": lens, "forms": 14, "bookkeeping_list_lengths": bookN},
 		Rule:   "one obligation per assert/panic site per (rule form, object length, extra length, tick mode); field bytes, ticks, suspended flags and indices are solver variables",
